@@ -724,11 +724,33 @@ func (c *Checker) poolModel() *poolModel {
 			}
 		}
 	}
-	if len(retPaths(s)) != 1 || len(panicPaths(s)) != 0 || len(fn.Params) != 1 {
+	// a validation in front of the constructor is fine when only an inadmissible allocator trips it (see C13-A1)
+	nPanic := 0
+	for _, po := range panicPaths(s) {
+		if !c.inadmissibleAllocatorPath(po) {
+			nPanic++
+		}
+	}
+	// (and the constructor is read on the path an allocator with channels takes: a validation that lets the
+	// zero-channel allocator through on a path of its own builds the same value there)
+	rets := retPaths(s)
+	if len(rets) > 1 && len(fn.Params) == 1 {
+		a := paramName(fn, 0)
+		adm := admissibleAllocator(mkAtom(a+".Channels", intT), mkAtom(a+".Length", intT), mkAtom(a+".Capacity", intT))
+		adm.add(Cond{Kind: CGE0, P: normInt(mkAtom(a+".Channels", intT)).AddInt(-1)})
+		var keep []Outcome
+		for _, ro := range rets {
+			if feasible(ro, adm) {
+				keep = append(keep, ro)
+			}
+		}
+		rets = keep
+	}
+	if len(rets) != 1 || nPanic != 0 || len(fn.Params) != 1 {
 		m.why = "PoolAlloc is not a single straight-line constructor of one Allocator parameter"
 		return m
 	}
-	o := retPaths(s)[0]
+	o := rets[0]
 	if ms := mods(o); len(ms) > 0 {
 		m.why = "PoolAlloc modifies existing memory: " + describeEffects(ms)
 		return m
